@@ -4,6 +4,7 @@ import (
 	"go/ast"
 	"go/token"
 	"go/types"
+	"strings"
 
 	"j5verif/checker/core"
 )
@@ -158,4 +159,87 @@ func assignedFromToLine(info *types.Info, fd *ast.FuncDecl, id *ast.Ident) bool 
 		return true
 	})
 	return found
+}
+
+// documentLinesVerbatim (R-CONST/lines): an edit is left out when the lines it
+// would replace already read as the formatter prints them. That comparison is
+// between the formatter's text and the *document's own lines*. If the lines
+// are cleaned first (a trailing "\r" trimmed, blanks cut) a line that differs
+// from the formatter's output only in what was cleaned away compares equal, no
+// edit is offered for it, and applying the edits no longer yields the
+// formatter's output.
+func documentLinesVerbatim(r *core.Run) {
+	r.Rule("R-CONST/lines", "the lines the format edits are compared with (the value of the lineSet's list of lines) are strings.Split(<input>, \"\\n\") as it is: no element of the list is assigned a transformed value before the comparison")
+	pk := r.P.Pkg(parserRel)
+	if pk == nil {
+		r.Fatal("anchor: package %s not found", parserRel)
+		return
+	}
+	info := pk.TypesInfo
+	n := 0
+	core.AllFuncDecls(pk, func(fd *ast.FuncDecl) {
+		if fd.Body == nil {
+			return
+		}
+		ast.Inspect(fd.Body, func(nd ast.Node) bool {
+			cl, ok := nd.(*ast.CompositeLit)
+			if !ok || !strings.HasSuffix(core.TypeStr(info.TypeOf(cl)), "parser.lineSet") {
+				return true
+			}
+			v := litKey(cl, "lines")
+			if v == nil {
+				return true
+			}
+			n++
+			o := r.Add("R-CONST/lines", parserRel+"."+core.FuncName(fd)+" | lines of the document", cl.Pos(), "lines the edits are compared with")
+			src := core.Unparen(v)
+			var local types.Object
+			if id, ok := src.(*ast.Ident); ok {
+				local = info.ObjectOf(id)
+				src = nil
+				ast.Inspect(fd.Body, func(m ast.Node) bool {
+					if as, ok := m.(*ast.AssignStmt); ok && len(as.Lhs) == len(as.Rhs) {
+						for i, l := range as.Lhs {
+							if lid, ok := l.(*ast.Ident); ok && info.ObjectOf(lid) == local {
+								src = core.Unparen(as.Rhs[i])
+							}
+						}
+					}
+					return true
+				})
+			}
+			c, isCall := src.(*ast.CallExpr)
+			if !isCall || core.CalleeName(info, c) != "strings.Split" {
+				o.Fail("the lines are not strings.Split of the input")
+				return true
+			}
+			if sep, ok := core.ConstString(info, c.Args[1]); !ok || sep != "\n" {
+				o.Fail("the input is not split at \"\\n\"")
+				return true
+			}
+			var store *ast.AssignStmt
+			if local != nil {
+				ast.Inspect(fd.Body, func(m ast.Node) bool {
+					if as, ok := m.(*ast.AssignStmt); ok {
+						for _, l := range as.Lhs {
+							if ix, ok := core.Unparen(l).(*ast.IndexExpr); ok {
+								if id, ok := core.Unparen(ix.X).(*ast.Ident); ok && info.ObjectOf(id) == local {
+									store = as
+								}
+							}
+						}
+					}
+					return true
+				})
+			}
+			if store != nil {
+				o.Pos = r.P.Rel(store.Pos())
+				o.Fail("the lines are rewritten before they are compared (%s): a line that differs from the formatter's text only in what is cut away here gets no edit, so applying the edits leaves it as it was — a CRLF document keeps its carriage returns where Fmt prints none", core.NormExpr(info, store.Rhs[0]))
+			} else {
+				o.Auto("strings.Split(input, \"\\n\"), untouched")
+			}
+			return true
+		})
+	})
+	r.Floor("R-CONST/lines", 1, "FmtDiffs")
 }
